@@ -166,4 +166,7 @@ func registerIntrinsics(vm *VM) {
 	registerMisc(vm)
 	registerUTF8(vm)
 	registerEnv(vm)
+	registerSyncMap(vm)
+	registerSyncPrims(vm)
+	registerAtomic(vm)
 }
